@@ -45,4 +45,9 @@ C11_ConcOwnData == IsKvc /\ Ev.op = "get" /\ Ev.want # "?" =>
                       IF Ev.want = "" THEN Ev.res = "notfound"
                       ELSE Ev.res = "ok" /\ Ev.got = Ev.want /\ Ev.gotok
 C11_ConcWriteAccepted == IsKvc /\ Ev.op = "put" => Ev.res = "ok"
+
+(* "sessids" lines: a session served through per-request engines and persisters over a filesystem directory that already   *)
+(* holds the sessions of ids differing from its own in one punctuation character, in letter case or in surrounding white   *)
+(* space (b), and alone in a directory (a): ids that differ are different sessions, whatever the engine does with them.    *)
+C11_EngineSessionsApart == Have /\ Ev.ev = "sessids" => Ev.a = Ev.b
 =============================================================================
